@@ -80,6 +80,10 @@ async fn run_case(case: Vec<String>, detail: bool) -> String {
     if reliable {
         mock.name = "TCP";
     }
+    // the first send takes this long (virtual ms): the transaction's clocks start when it has completed
+    if let Some(lat) = case.get(9).and_then(|s| s.parse::<u64>().ok()) {
+        mock.first_send_delay_ms.store(lat, std::sync::atomic::Ordering::SeqCst);
+    }
     let tp = TpHandle::new(mock);
     let dest: SocketAddr = "10.9.9.9:5060".parse().unwrap();
     let mut builder = Endpoint::builder();
@@ -162,6 +166,12 @@ async fn run_case(case: Vec<String>, detail: bool) -> String {
     });
 
     settle_now().await; // first transmission is on the wire now
+    if wire.lock().is_empty() {
+        if let Some(lat) = case.get(9).and_then(|s| s.parse::<u64>().ok()) {
+            advance_to(&clock, lat).await; // ... or once the slow first send has completed
+            settle_now().await;
+        }
+    }
     let first = wire.lock().first().map(|w| w.2.clone()).unwrap_or_default();
     let via = header_lines(&first, "via").join("\r\n");
     let from = header_lines(&first, "from").join("\r\n");
